@@ -51,7 +51,7 @@ class VerifTask(Task):
         if LEDGER.on_exec is not None:
             LEDGER.on_exec(entry)
         out = dict(script.get("out") or {})
-        if k == "ok":
+        if k in ("ok", "verify"):     # verify: the stage's verifier (vverif below) answers RETRY for the first n executions
             return TaskResult.success(outputs=out)
         if k == "terminal":
             return TaskResult.terminal("scripted failure")
@@ -85,3 +85,18 @@ class VerifTask(Task):
                 return TaskResult.success(outputs=out, context=upd)
             return TaskResult.suspend(context=upd)
         raise RuntimeError("unknown script " + k)
+
+
+def vverif(stage):
+    """Callable verifier registered as "vverif": RETRY while the stage's `verify` task has been executed at most n times
+    (a function of the ledger, like transientNoCtx), then OK.  TransientVerificationError takes the same path as a
+    TransientError without context update."""
+    from stabilize.verification import VerifyResult
+
+    for name, sc in (stage.context.get("_script") or {}).items():
+        if sc.get("k") == "verify":
+            with LEDGER_LOCK:
+                done = LEDGER.count(name)
+            if done <= sc.get("n", 0):
+                return VerifyResult.retry("scripted: not ready yet")
+    return VerifyResult.ok()
